@@ -78,7 +78,7 @@ func (r *RigR) oracles() {
 		m *EmMsg
 	}
 	perVch := map[string][]emRef{}
-	lastEndSeq := map[string]int{} // queue|vch -> last end seq
+	lastEndSeq := map[string]int{}  // queue|vch -> last end seq
 	shardMap := map[string]string{} // source vch -> downstream ShardName
 	shardInv := map[string]string{}
 	dataPacksOnQueue := map[string]map[int64]bool{}
